@@ -1158,7 +1158,27 @@ func TestC47(t *testing.T) {
 		c.Exhaustive("delivery orders of the key exchange for every start configuration with <= 2 starts (x 6 random streams)", total)
 	}
 
+	c47HostileSMPMatrix(t, c)
+
 	rapid.Check(t, func(rt *rapid.T) {
+		if rapid.IntRange(0, 19).Draw(rt, "hostilesmp") == 0 {
+			sp := drawSMP2Spec(rt)
+			label, err := runHostileSMP(rapid.Uint64().Draw(rt, "smpseed"), sp, rapid.SampledFrom([]string{"zero", "p", "one", "junk"}).Draw(rt, "rb"))
+			if _, isBypass := err.(smpBypass); isBypass {
+				if _, listed := ev.IsKnownFinding("F39"); listed {
+					c.Excluded()
+					return
+				}
+			}
+			if err != nil {
+				if strings.HasPrefix(err.Error(), "harness:") {
+					rt.Skip(err.Error())
+				}
+				rt.Fatalf("VF-VIOLATION: property=C47 %v", err)
+			}
+			c.Case(true, "hostile-smp|"+label, "hostile-smp:random")
+			return
+		}
 		if rapid.IntRange(0, 9).Draw(rt, "which") == 0 {
 			// parser-only: inputs into a fresh or half-open conversation
 			conv := &otr.Conversation{PrivateKey: otrKeyPool()[0], Rand: drawDRBG(rt, "prand"), FragmentSize: rapid.SampledFrom([]int{0, 19, 40}).Draw(rt, "pfrag")}
